@@ -356,7 +356,8 @@ func (e *Engine) jsonFromTree(n *jnode, t types.Type, old Value, depth int) Valu
 	}
 	if isTimeType(t) {
 		if n.K == jOpaque && isTimeType(n.T) {
-			return copyVal(n.V)
+			// the textual form carries no monotonic clock reading
+			return e.mkTime(e.timeNS(n.V))
 		}
 		if n.K == jNull {
 			return old
